@@ -254,7 +254,9 @@ def check(run: Run) -> None:
                         "the key-set stamp - what the removal does to the added/removed bits is C05's business, not C04's)"):
         from . import c05
         sub = Run("C04", run.tier, run.tree, quiet=True)
-        c05.check(sub)
+        sub.is_sub = True
+        if not getattr(run, "is_sub", False):
+            c05.check(sub)
         run.evaluations += sub.evaluations
         run.count(1, "C04.i")
         for f in sub.findings:
